@@ -255,3 +255,13 @@ Section DnsList.
     | next :: r => if next then dns_list_loop skip fuel r else Ok r
     end.
 End DnsList.
+
+(** * what ParsePacket allocates for an announced length, before any data has arrived:
+      the 4 bytes of the size field, and [length] bytes only when 64 <= length <= max_packet.
+      The limits the implementation compares untrusted lengths with, as the model has them: *)
+Definition min_packet : N := 64.
+Definition packet_prealloc (stream : bytes) : N :=
+  if short 4 stream then 4 else
+  let length := le_num (firstn 4 stream) in
+  if (length <? min_packet) || (max_packet <? length) then 4 else 4 + length.
+
